@@ -610,7 +610,7 @@ long abtv_syscall(long no, ...)
     }
     if (op == FUTEX_WAKE) {
         int n = 0;
-        if (val >= SIM_MAXT) {
+        if (val >= SIM_MAXT) { /* (more than there can be: everybody; a smaller count is honoured exactly) */
             for (int i = 0; i < G.nT; i++)
                 if (G.T[i].state == ST_BLOCKED && G.T[i].wait_kind == WK_FUTEX && G.T[i].wait_addr == key) {
                     sim_wake(i, WR_WAKE);
